@@ -23,6 +23,7 @@ import (
 	"strings"
 	"testing"
 
+	"github.com/go-openapi/errors"
 	"github.com/go-openapi/runtime"
 	"github.com/go-openapi/runtime/client"
 	"github.com/go-openapi/runtime/middleware"
@@ -130,6 +131,8 @@ type opPlan struct {
 	hdrs         map[string]string
 	result       any
 	useResponder bool
+	failWith     int // handler returns an error with this code (0 = success)
+	failMsg      string
 }
 
 func genOp(t *kernel.Tape, idx int, tmpl string, method string) *opPlan {
@@ -265,6 +268,9 @@ func (pl *opPlan) genValues(t *kernel.Tape, env *kernel.Env) (awk bool) {
 			n := 1 + t.Choose(3, "arr-n")
 			for k := 0; k < n; k++ {
 				s, a2 := genString(t, 3, "arr-item")
+				if p.CollectionFormat == "multi" && t.Bool(5, "empty-item") {
+					s, a2 = "", true
+				}
 				if p.CollectionFormat != "multi" {
 					sep := ","
 					if p.CollectionFormat == "pipes" {
@@ -304,6 +310,13 @@ func (pl *opPlan) genValues(t *kernel.Tape, env *kernel.Env) (awk bool) {
 			pl.hdrs[fmt.Sprintf("X-Resp-%d", i)] = headerSafe(s)
 		}
 		pl.status = []int{200, 201, 202, 404, 409, 500, 503}[t.Choose(7, "resp-status")]
+	}
+	if t.Bool(5, "handler-fails") {
+		pl.failWith = []int{404, 409, 422, 500, 418}[t.Choose(5, "fail-code")]
+		m, _ := genString(t, 3, "fail-msg")
+		pl.failMsg = "failed: " + strings.ToValidUTF8(m, "?")
+		pl.status = pl.failWith
+		pl.hdrs = map[string]string{}
 	}
 	s, a := genString(t, 6, "resp-body")
 	awk = awk || a
@@ -429,6 +442,9 @@ func (prop) Run(t *testing.T, tape *kernel.Tape, sc kernel.Scenario) *kernel.Res
 	for _, pl := range plans {
 		pl := pl
 		u.RegisterOperation(pl.op.Method, pl.op.Path, &simapi.Handler{W: world, Op: pl.op.ID, Result: func(int, map[string]any) (any, error) {
+			if pl.failWith != 0 {
+				return nil, errors.New(int32(pl.failWith), "%s", pl.failMsg)
+			}
 			if !pl.useResponder {
 				return pl.result, nil
 			}
@@ -470,6 +486,13 @@ func (prop) Run(t *testing.T, tape *kernel.Tape, sc kernel.Scenario) *kernel.Res
 				}
 				raw, rerr := io.ReadAll(r.Body())
 				obs.raw, obs.err = raw, rerr
+				if target.failWith != 0 {
+					// the server answers failures as application/json whatever the operation produces
+					var m map[string]any
+					obs.err = c.Consume(bytes.NewReader(raw), &m)
+					obs.decoded = m
+					return "read", nil
+				}
 				switch target.prod {
 				case "application/json":
 					var m map[string]any
@@ -601,7 +624,12 @@ func (prop) Run(t *testing.T, tape *kernel.Tape, sc kernel.Scenario) *kernel.Res
 				env.Violate("C04/response-differs", "header", "header %s: reader saw %q, handler set %q", k, obs.hdrs[k], v)
 			}
 		}
-		if obs.err != nil {
+		if target.failWith != 0 {
+			m, _ := obs.decoded.(map[string]any)
+			if obs.err != nil || fmt.Sprint(m["message"]) != target.failMsg {
+				env.Violate("C04/response-differs", "error-body:produces="+target.prod, "handler failed with %d %q; the reader's consumer decoded %v from %q (err %v)", target.failWith, target.failMsg, obs.decoded, trunc(obs.raw, 200), obs.err)
+			}
+		} else if obs.err != nil {
 			env.Violate("C04/response-differs", "decode:"+target.prod, "reader could not decode the %s body %q: %v", target.prod, trunc(obs.raw, 200), obs.err)
 		} else {
 			gj, _ := json.Marshal(obs.decoded)
